@@ -232,3 +232,10 @@ for pid, items in (("C01", FINALS + KEYF[:1]), ("C03", FINALS[1:2] + FINALS[3:4]
                    ("C10", KEYF), ("C12", FINALS + KEYF)):
     if pid in PLAN:
         add_imports(pid, WHI); PLAN[pid] += items
+
+# MANTIS whole block functions (WholeMantis.v): mantis_ecb_crypt / mantis_ecb_crypt_tweaked = model, all data, r = 5..8
+WM = "WholeMantis.v"
+MFIN = [(WM, "mcryptA_final"), (WM, "mcryptB_final"), (WM, "msteps_hom")]
+for pid, items in (("C02", MFIN), ("C03", MFIN[:2]), ("C12", MFIN[:2])):
+    if pid in PLAN:
+        add_imports(pid, WHI + ["ModelCipher", "WholeMantis"]); PLAN[pid] += items
